@@ -450,6 +450,13 @@ static CaptureListPool capture_list_pool_new(void) {
 }
 
 static void capture_list_pool_reset(CaptureListPool *self) {
+  // A limit that was lowered since the last execution must apply to this one:
+  // drop the capture lists allocated beyond it, otherwise they would all be
+  // handed out again as free lists.
+  while (self->list.size > self->max_capture_list_count) {
+    array_delete(array_back(&self->list));
+    self->list.size--;
+  }
   for (uint32_t i = 0; i < self->list.size; i++) {
     // This invalid size means that the list is not in use.
     array_get(&self->list, i)->size = UINT32_MAX;
